@@ -93,11 +93,13 @@ def run_mc(module, cfg, workers=8, timeout=900, expect_violation=False, heap="12
         cfg_path = f"{md}/{tag}.cfg"
         open(cfg_path, "w").write(txt)
     t0 = time.time()
+    timed_out = False
     try:
         rc, out = sh(tlc_cmd(module, cfg_path, md + "/states", workers, heap=heap), timeout=timeout, cwd=SPEC)
-    except subprocess.TimeoutExpired:
-        shutil.rmtree(md, ignore_errors=True)
-        raise ToolError(f"TLC timed out on {cfg}")
+    except subprocess.TimeoutExpired as e:
+        # a bounded exploration: report what was covered, it is not exhaustive
+        out = e.output if isinstance(e.output, str) else (e.output or b"").decode(errors="replace")
+        timed_out = True
     wall = time.time() - t0
     shutil.rmtree(md, ignore_errors=True)
     m = RE_STATES.findall(out)
@@ -109,11 +111,16 @@ def run_mc(module, cfg, workers=8, timeout=900, expect_violation=False, heap="12
     if mm:
         violated = mm.group(1) if mm.groups() else "temporal"
     finished = "Model checking completed. No error has been found." in out
+    if timed_out and not violated:
+        pm = re.findall(r"Progress\(\d+\) at [^:]+:[^:]+:[^:]+: ([\d,]+) states generated.*?, ([\d,]+) distinct states found", out)
+        states = int(pm[-1][1].replace(",", "")) if pm else 0
+        trans = int(pm[-1][0].replace(",", "")) if pm else 0
+        return dict(cfg=tag, states=states, transitions=trans, ok=True, complete=False, violated=None, wall=round(wall, 1), cex_actions=[], out=out[-2000:])
     if not finished and not violated:
         log(out[-3000:])
         raise ToolError(f"TLC failed on {cfg}")
     actions = re.findall(r"State \d+: <(\w+(?:\([^)]*\))?)", out)
-    return dict(cfg=tag, states=states, transitions=trans, ok=finished, violated=violated, wall=round(wall, 1),
+    return dict(cfg=tag, states=states, transitions=trans, ok=finished, complete=finished, violated=violated, wall=round(wall, 1),
                 cex_actions=actions, out=out)
 
 
@@ -147,7 +154,7 @@ def run_trace(module, trace_path, timeout=1200, heap="3g", cfg=None):
 
 # ----------------------------------------------------------------------------------- harness runs
 
-def run_harness(args, timeout=3600):
+def run_harness(args, timeout=1500):
     rc, out = sh([HARNESS] + args, timeout=timeout)
     if rc != 0:
         log(out[-3000:])
